@@ -69,3 +69,9 @@ CASES += [
     t("first addition stores a copy made with the copy method",
       "                        self.d__data = numpy.array(data)", "                        self.d__data = data.copy()"),
 ]
+
+CASES += [
+    {"name": "container skips setting a flag it has set before", "kind": "mutant", "rule": "C19-H", "edits": [
+        ("quantarhei/spectroscopy/twodcontainer.py", "        for tag in self.spectra:\n            \n            sp = self.spectra[tag]\n            sp.set_data_flag(flag)",
+         "        if flag == getattr(self, \"_last_flag\", None):\n            return\n        for tag in self.spectra:\n            sp = self.spectra[tag]\n            sp.set_data_flag(flag)\n        self._last_flag = flag", 1)]},
+]
